@@ -592,6 +592,8 @@ func ruleGroupResolvedPerCall(w *World, r *Report, rule string) {
 // documented to need hashable keys; instances have no such contract.
 func ruleNoInstanceMapKeys(w *World, r *Report, rule string) {
 	n := 0
+	guardedMaps := 0
+	keyMaps := 0
 	seen := map[string]bool{}
 	checkType := func(t types.Type, pos token.Pos, where string) {
 		m, ok := t.Underlying().(*types.Map)
@@ -608,6 +610,21 @@ func ruleNoInstanceMapKeys(w *World, r *Report, rule string) {
 		}
 		key := where + "|" + types.TypeString(t, nil)
 		if seen[key] {
+			return
+		}
+		// map[any]…: registration keys are `any` too, and those are hashable by contract. Such a map
+		// is about instances only when some key put into it is known to be one (a value that came
+		// out of a resolution or a construction, the instance parameter of the storing chain)
+		if iface, isI := k.Underlying().(*types.Interface); isI && iface.NumMethods() == 0 {
+			if uses, inst := anyKeyInstanceEvidence(w, t); uses > 0 && inst == "" {
+				keyMaps++
+				return
+			}
+		}
+		// a map of user-supplied keys whose every use tests the key's hashability first
+		// (reflect.ValueOf(key).Comparable(), directly or in a predicate) cannot panic
+		if uses, unguarded := interfaceKeyUses(w, t); uses > 0 && unguarded == "" {
+			guardedMaps++
 			return
 		}
 		seen[key] = true
@@ -632,7 +649,7 @@ func ruleNoInstanceMapKeys(w *World, r *Report, rule string) {
 		return
 	}
 	if len(seen) == 0 {
-		r.OK(rule, "maps#no-interface-keys", token.NoPos, false, "%d map types, none keyed by an interface type that can hold a service instance", n)
+		r.OK(rule, "maps#no-interface-keys", token.NoPos, false, "%d map types, none keyed by an interface type that can hold a service instance (%d interface-keyed map(s) whose every use tests the key's hashability first, %d map[any] whose keys are never instances)", n, guardedMaps, keyMaps)
 	}
 }
 
@@ -710,6 +727,17 @@ func ruleDeletedNodesUnlinked(w *World, r *Report, rule string) {
 			}
 			return false
 		}
+		unchanged := noChangeWitness(info, fi.Decl.Body, func(nd ast.Node) bool {
+			for _, c := range callsIn(nd, false) {
+				if id, ok := unparen(c.Fun).(*ast.Ident); ok && id.Name == "delete" && len(c.Args) == 2 && fieldOf(info, c.Args[0]) == g.nodes {
+					return true
+				}
+				if cal := callee(info, c); cal != nil && w.Decls[cal] != nil && cal != g.updateDegrees.Obj && (linker == nil || cal != linker.Obj) {
+					return true // a repository helper may delete
+				}
+			}
+			return false
+		})
 		spec := Spec{Must: false, Global: globalPrefixes("node-deleted"),
 			Stop: func(h *FuncInfo) bool { return h == g.updateDegrees || h == linker },
 			Node: func(nd ast.Node, in Facts) (gen, kill []string) {
@@ -733,6 +761,9 @@ func ruleDeletedNodesUnlinked(w *World, r *Report, rule string) {
 			Edge: func(b *cfg.Block, i int, cond ast.Expr, in Facts) (gen, kill []string) {
 				// leaving a sweep over the edge table
 				if b.Kind == cfg.KindRangeLoop && i == 1 && sweep[b.Stmt] {
+					kill = append(kill, "node-deleted")
+				}
+				if cond != nil && unchanged(cond, i) {
 					kill = append(kill, "node-deleted")
 				}
 				return
